@@ -217,6 +217,13 @@ def run(tier, seed):
         mB = members[sb["name"]]
         rot = gen.rotate(mB, len(mB) - rng.randrange(3, 9))
         histories.append([(sa, rot, True, True, "plain"), (sb, rot, True, True, "plain")])
+    # ... in particular after the record was merely wrapped / typed by one of the product classes of the kits
+    for sp, c in kcs:
+        if "Product" in sp["name"]:
+            for sb, cb in rng.sample(kcs, 4 if q else 20):
+                mB = members[sb["name"]]
+                rot = gen.rotate(mB, len(mB) - rng.randrange(3, 9))
+                histories.append([(sp, rot, True, True, "plain"), (sb, rot, True, True, "plain")])
     # user part classes that share enzyme AND signature, one a module type and one a vector type (mirror-image structures)
     for espec, G in tc.geometries():
         sig = [tc.rnd_signature(G.ovh, rng), tc.rnd_signature(G.ovh, rng)]
